@@ -18,6 +18,15 @@
 #include <kernel/lafem/power_vector.hpp>
 #include <kernel/lafem/tuple_vector.hpp>
 #include <kernel/adjacency/graph.hpp>
+#include <kernel/lafem/saddle_point_matrix.hpp>
+#include <kernel/lafem/power_diag_matrix.hpp>
+#include <kernel/lafem/power_col_matrix.hpp>
+#include <kernel/lafem/power_row_matrix.hpp>
+#include <kernel/lafem/power_full_matrix.hpp>
+#include <kernel/lafem/tuple_diag_matrix.hpp>
+#include <kernel/lafem/tuple_matrix.hpp>
+#include <kernel/lafem/sparse_vector.hpp>
+#include <kernel/lafem/sparse_matrix_banded.hpp>
 #include <control/checkpoint_control.hpp>
 
 #include <map>
@@ -83,8 +92,40 @@ namespace
     return s;
   }
 
+  typedef SparseMatrixCSR<double, Index> Csr;
+  typedef SaddlePointMatrix<Csr, Csr, Csr> SadMat;
+  typedef PowerDiagMatrix<Csr, 2> PowDiag;
+  typedef PowerColMatrix<Csr, 2> PowCol;
+  typedef PowerRowMatrix<Csr, 3> PowRow;
+  typedef PowerFullMatrix<Csr, 2, 2> PowFull;
+  typedef TupleDiagMatrix<Csr, SparseMatrixBCSR<double, Index, 2, 2>> TupDiag;
+  typedef TupleMatrix<TupleMatrixRow<Csr, Csr>, TupleMatrixRow<Csr, Csr>> TupMat;
+
+  inline void snap_add(Snapshot& s, const Snapshot& t)
+  {
+    s.elems.insert(s.elems.end(), t.elems.begin(), t.elems.end());
+    s.inds.insert(s.inds.end(), t.inds.begin(), t.inds.end());
+    s.scalars.insert(s.scalars.end(), t.scalars.begin(), t.scalars.end());
+  }
+  Snapshot snap(const SadMat& m) { Snapshot s = snap(m.block_a()); snap_add(s, snap(m.block_b())); snap_add(s, snap(m.block_d())); return s; }
+  Snapshot snap(const PowDiag& m) { Snapshot s = snap(m.template at<0, 0>()); snap_add(s, snap(m.template at<1, 1>())); return s; }
+  Snapshot snap(const PowCol& m) { Snapshot s = snap(m.template at<0, 0>()); snap_add(s, snap(m.template at<1, 0>())); return s; }
+  Snapshot snap(const PowRow& m) { Snapshot s = snap(m.template at<0, 0>()); snap_add(s, snap(m.template at<0, 1>())); snap_add(s, snap(m.template at<0, 2>())); return s; }
+  Snapshot snap(const PowFull& m) { Snapshot s = snap(m.template at<0, 0>()); snap_add(s, snap(m.template at<0, 1>())); snap_add(s, snap(m.template at<1, 0>())); snap_add(s, snap(m.template at<1, 1>())); return s; }
+  Snapshot snap(const TupDiag& m) { Snapshot s = snap(m.template at<0, 0>()); snap_add(s, snap(m.template at<1, 1>())); return s; }
+  Snapshot snap(const TupMat& m) { Snapshot s = snap(m.template at<0, 0>()); snap_add(s, snap(m.template at<0, 1>())); snap_add(s, snap(m.template at<1, 0>())); snap_add(s, snap(m.template at<1, 1>())); return s; }
+
   struct Objects
   {
+    std::vector<std::unique_ptr<SadMat>> sad;
+    std::vector<std::unique_ptr<PowDiag>> pdiag;
+    std::vector<std::unique_ptr<PowCol>> pcol;
+    std::vector<std::unique_ptr<PowRow>> prow;
+    std::vector<std::unique_ptr<PowFull>> pfull;
+    std::vector<std::unique_ptr<TupDiag>> tdiag;
+    std::vector<std::unique_ptr<TupMat>> tmat;
+    std::vector<std::unique_ptr<SparseVector<double, Index>>> sv;
+    std::vector<std::unique_ptr<SparseMatrixBanded<double, Index>>> band;
     std::vector<std::unique_ptr<DenseVector<double, Index>>> dv;
     std::vector<std::unique_ptr<DenseVector<float, unsigned int>>> dvf;
     std::vector<std::unique_ptr<DenseVectorBlocked<double, Index, 2>>> dvb;
@@ -105,6 +146,13 @@ namespace
     return gr;
   }
 
+  Csr make_csr(Gen& g, Index rows, Index cols, int rank, int o, Index off)
+  {
+    Csr m(make_graph(g, rows, cols));
+    if(m.used_elements() > 0) for(Index i = 0; i < m.used_elements(); ++i) m.val()[i] = val(rank, o, i + off);
+    return m;
+  }
+
   // creates object number o of the given kind on this rank, registers it and records the reference copy
   void make_object(Objects& O, Control::CheckpointControl& cp, int rank, int o, ObjRec& rec, Gen& g, bool reg)
   {
@@ -119,6 +167,45 @@ namespace
     case 6: { DenseVectorBlocked<double, Index, 2> a(std::max<Index>(n, 1)); auto* p = a.template elements<Perspective::pod>(); for(Index i = 0; i < 2 * a.size(); ++i) p[i] = val(rank, o, i);
               DenseVector<double, Index> b(1 + g.idx(20)); for(Index i = 0; i < b.size(); ++i) b(i, val(rank, o, i + 5000));
               O.tup.emplace_back(new TupVec(std::move(a), std::move(b))); auto& v = *O.tup.back(); rec.ref = snap(v); if(reg) cp.add_object(String(rec.id), v); } break;
+    case 7: { const Index r1 = 1 + g.idx(8), r2 = 1 + g.idx(6);
+              O.sad.emplace_back(new SadMat(make_csr(g, r1, r1, rank, o, 0), make_csr(g, r1, r2, rank, o, 1000), make_csr(g, r2, r1, rank, o, 2000)));
+              auto& m = *O.sad.back(); rec.ref = snap(m); if(reg) cp.add_object(String(rec.id), m); } break;
+    case 8: { const Index r1 = 1 + g.idx(8);
+              O.pdiag.emplace_back(new PowDiag()); auto& m = *O.pdiag.back();
+              m.template at<0, 0>() = make_csr(g, r1, r1, rank, o, 0); m.template at<1, 1>() = make_csr(g, r1, r1, rank, o, 1000);
+              rec.ref = snap(m); if(reg) cp.add_object(String(rec.id), m); } break;
+    case 9: { const Index r1 = 1 + g.idx(8), c1 = 1 + g.idx(8);
+              O.pcol.emplace_back(new PowCol()); auto& m = *O.pcol.back();
+              m.template at<0, 0>() = make_csr(g, r1, c1, rank, o, 0); m.template at<1, 0>() = make_csr(g, r1, c1, rank, o, 1000);
+              rec.ref = snap(m); if(reg) cp.add_object(String(rec.id), m); } break;
+    case 10: { const Index r1 = 1 + g.idx(8), c1 = 1 + g.idx(8);
+              O.prow.emplace_back(new PowRow()); auto& m = *O.prow.back();
+              m.template at<0, 0>() = make_csr(g, r1, c1, rank, o, 0); m.template at<0, 1>() = make_csr(g, r1, c1, rank, o, 1000); m.template at<0, 2>() = make_csr(g, r1, c1, rank, o, 2000);
+              rec.ref = snap(m); if(reg) cp.add_object(String(rec.id), m); } break;
+    case 11: { const Index r1 = 1 + g.idx(6);
+              O.pfull.emplace_back(new PowFull()); auto& m = *O.pfull.back();
+              m.template at<0, 0>() = make_csr(g, r1, r1, rank, o, 0); m.template at<0, 1>() = make_csr(g, r1, r1, rank, o, 1000);
+              m.template at<1, 0>() = make_csr(g, r1, r1, rank, o, 2000); m.template at<1, 1>() = make_csr(g, r1, r1, rank, o, 3000);
+              rec.ref = snap(m); if(reg) cp.add_object(String(rec.id), m); } break;
+    case 12: { const Index r1 = 1 + g.idx(8), r2 = 1 + g.idx(5);
+              O.tdiag.emplace_back(new TupDiag()); auto& m = *O.tdiag.back();
+              m.template at<0, 0>() = make_csr(g, r1, r1, rank, o, 0);
+              { SparseMatrixBCSR<double, Index, 2, 2> b(make_graph(g, r2, r2)); if(b.used_elements() > 0) { auto* p = b.template val<Perspective::pod>(); for(Index i = 0; i < b.template used_elements<Perspective::pod>(); ++i) p[i] = val(rank, o, i + 1000); } m.template at<1, 1>() = std::move(b); }
+              rec.ref = snap(m); if(reg) cp.add_object(String(rec.id), m); } break;
+    case 13: { const Index r1 = 1 + g.idx(6), r2 = 1 + g.idx(6);
+              O.tmat.emplace_back(new TupMat()); auto& m = *O.tmat.back();
+              m.template at<0, 0>() = make_csr(g, r1, r1, rank, o, 0); m.template at<0, 1>() = make_csr(g, r1, r2, rank, o, 1000);
+              m.template at<1, 0>() = make_csr(g, r2, r1, rank, o, 2000); m.template at<1, 1>() = make_csr(g, r2, r2, rank, o, 3000);
+              rec.ref = snap(m); if(reg) cp.add_object(String(rec.id), m); } break;
+    case 14: { const Index sz = n + 1; O.sv.emplace_back(new SparseVector<double, Index>(sz)); auto& v = *O.sv.back();
+              for(Index i = 0; i < sz; ++i) if(g.idx(3) == 0) v(i, val(rank, o, i));
+              v.sort(); rec.ref = snap(v); if(reg) cp.add_object(String(rec.id), v); } break;
+    case 15: { const Index r1 = 2 + g.idx(10);
+              std::vector<Index> offs; for(Index d = 0; d < 2 * r1 - 1; ++d) if(g.idx(4) == 0) offs.push_back(d); if(offs.empty()) offs.push_back(r1 - 1);
+              DenseVector<Index, Index> vo(Index(offs.size())); for(Index i = 0; i < vo.size(); ++i) vo(i, offs[i]);
+              DenseVector<double, Index> vv(Index(offs.size()) * r1); for(Index i = 0; i < vv.size(); ++i) vv(i, val(rank, o, i));
+              O.band.emplace_back(new SparseMatrixBanded<double, Index>(r1, r1, vv, vo)); auto& m = *O.band.back();
+              rec.ref = snap(m); if(reg) cp.add_object(String(rec.id), m); } break;
     case 4: { O.bcsr.emplace_back(new SparseMatrixBCSR<double, Index, 2, 2>(make_graph(g, 1 + g.idx(8), 1 + g.idx(8)))); auto& m = *O.bcsr.back(); if(m.used_elements() > 0) { auto* p = m.template val<Perspective::pod>(); for(Index i = 0; i < m.template used_elements<Perspective::pod>(); ++i) p[i] = val(rank, o, i); } rec.ref = snap(m); if(reg) cp.add_object(String(rec.id), m); } break;
     }
   }
@@ -145,6 +232,15 @@ namespace
     case 4: { SparseMatrixBCSR<double, Index, 2, 2> t; restore_and_check(cp, rec, t, rank, how); } break;
     case 5: { PowVec3 t; restore_and_check(cp, rec, t, rank, how); } break;
     case 6: { TupVec t; restore_and_check(cp, rec, t, rank, how); } break;
+    case 7: { SadMat t; restore_and_check(cp, rec, t, rank, how); } break;
+    case 8: { PowDiag t; restore_and_check(cp, rec, t, rank, how); } break;
+    case 9: { PowCol t; restore_and_check(cp, rec, t, rank, how); } break;
+    case 10: { PowRow t; restore_and_check(cp, rec, t, rank, how); } break;
+    case 11: { PowFull t; restore_and_check(cp, rec, t, rank, how); } break;
+    case 12: { TupDiag t; restore_and_check(cp, rec, t, rank, how); } break;
+    case 13: { TupMat t; restore_and_check(cp, rec, t, rank, how); } break;
+    case 14: { SparseVector<double, Index> t(pre); restore_and_check(cp, rec, t, rank, how); } break;
+    case 15: { SparseMatrixBanded<double, Index> t; restore_and_check(cp, rec, t, rank, how); } break;
     }
   }
 
@@ -172,7 +268,7 @@ namespace
     const int k = int(g.idx(Index(max_objs) + 1));
     for(int o = 0; o < k; ++o)
     {
-      ObjRec rec; rec.kind = int(g.idx(7));
+      ObjRec rec; rec.kind = int(g.idx(16));
       do { rec.id = make_id(g, o, plan.objs); } while(std::any_of(plan.objs.begin(), plan.objs.end(), [&](const ObjRec& r) { return r.id == rec.id; }));
       make_object(O, cp, rank, o, rec, g, true);
       plan.objs.push_back(rec);
@@ -205,7 +301,7 @@ namespace
       const int extra = int(g.idx(3));
       for(int e = 0; e < extra; ++e, ++o2)
       {
-        ObjRec rec; rec.kind = int(g.idx(7));
+        ObjRec rec; rec.kind = int(g.idx(16));
         do { rec.id = make_id(g, o2 % 20, plan.objs2); } while(std::any_of(plan.objs.begin(), plan.objs.end(), [&](const ObjRec& r) { return r.id == rec.id; }) || std::any_of(plan.objs2.begin(), plan.objs2.end(), [&](const ObjRec& r) { return r.id == rec.id; }));
         make_object(O, cp, rank, o2, rec, g, true);
         plan.objs2.push_back(rec);
